@@ -30,6 +30,22 @@ KNOWN = os.path.join(ROOT, "KNOWN_FINDINGS.txt")
 sys.path.insert(0, ROOT)
 from props import PROPS  # noqa: E402
 
+# Development aid: VERIF_REPO=<dir> checks another copy of larking (e.g. a
+# scratch worktree with a seeded change) instead of /repo. Registered
+# commands never set it.
+ALT_REPO = os.environ.get("VERIF_REPO")
+if ALT_REPO:
+    ALT_REPO = os.path.abspath(ALT_REPO)
+    tag = hashlib.sha1(ALT_REPO.encode()).hexdigest()[:8]
+    alt = os.path.join(BUILD, "alt-" + tag)
+    shutil.rmtree(alt, ignore_errors=True)
+    shutil.copytree(HARNESS, alt, ignore=shutil.ignore_patterns("testdata"))
+    gm = open(os.path.join(alt, "go.mod")).read().replace("=> /repo", "=> " + ALT_REPO)
+    open(os.path.join(alt, "go.mod"), "w").write(gm)
+    HARNESS = alt
+    BUILD = os.path.join(BUILD, "altbin-" + tag)
+    EVID = os.path.join(BUILD, "evidence")
+
 
 def goenv():
     env = dict(os.environ)
